@@ -117,7 +117,12 @@ def plan_history(sc):
         spec = r.choice(["A", "A", "B", "B"])
         fault = r.choice([None, None, None, "torn", "flip", "lost_output", "lost_meta", "stale_tmp", "enospc"])
         steps.append((spec, fault))
-    return {"A": A, "B": B, "variant_field": which, "steps": steps, "fault_seed": r.getrandbits(32)}
+    plan = {"A": A, "B": B, "variant_field": which, "steps": steps, "fault_seed": r.getrandbits(32)}
+    # drawn last.  A step may be preceded by the *user* fetching the pmappings through the same
+    # cache_dir and editing the object they were handed (drop_einsums is in place): what the cache
+    # serves to the next call must not depend on what a caller did to an earlier answer.
+    plan["user_edit"] = [r.random() < 0.3 for _ in steps]
+    return plan
 
 
 def run_history(seed, sc, ctx, workdir, replay_tapes=None, upto=None):
@@ -167,8 +172,22 @@ def run_history(seed, sc, ctx, workdir, replay_tapes=None, upto=None):
             if fault_desc is None and dirty is not None:
                 fault_desc = "earlier:" + dirty
 
-            def body(spec, _cd=cache_dir):
-                return C._S["ffm"].map_workload_to_arch(spec, print_progress=False, cache_dir=_cd)
+            user_edit = bool(plan.get("user_edit", [False] * (si + 1))[si])
+
+            def body(spec, _cd=cache_dir, _edit=user_edit):
+                ffm = C._S["ffm"]
+                if _edit:
+                    try:
+                        pm = ffm.make_pmappings(spec, cache_dir=_cd, print_progress=False)
+                        names = list(pm.einsum2pmappings)
+                        if len(names) > 1:
+                            pm.drop_einsums(names[-1])  # the user's own object, edited in place
+                            st["cache_user_edit_steps"] = st.get("cache_user_edit_steps", 0) + 1
+                    except Exception:
+                        # a damaged directory may make this fetch fail; the step's own call is
+                        # judged below by the usual (relaxed under faults) oracle
+                        st["cache_user_fetch_failed"] = st.get("cache_user_fetch_failed", 0) + 1
+                return ffm.map_workload_to_arch(spec, print_progress=False, cache_dir=_cd)
 
             if enospc is not None:
                 with enospc:
@@ -220,7 +239,9 @@ def run_history(seed, sc, ctx, workdir, replay_tapes=None, upto=None):
                 stale = other in refs and canon.compare_fronts(refs[other], rr.front) is None
                 res["violations"].append(_viol(
                     f"cache_{c[0]}", f"step{si}:{name}:{fault or 'nofault'}",
-                    f"history {[s for s in plan['steps'][:si + 1]]} (B = A with {plan['variant_field']} "
+                    f"history {[s for s in plan['steps'][:si + 1]]} (user edited an earlier answer "
+                    f"before steps {[i for i, e in enumerate(plan.get('user_edit', [])[:si + 1]) if e]}; "
+                    f"B = A with {plan['variant_field']} "
                     f"changed): step {si} map({name}) with cache_dir returned a front different from the "
                     f"reference of {name}" + (" -- it equals the reference of the OTHER spec (stale entry "
                     "served)" if stale else "") + f"; fault before step: {fault_desc}; {c[1]}",
